@@ -96,7 +96,7 @@ class Sys(e1.TimedSys):
             acts.append(("removeall", a))
         if self.cfg.get("sequences") and self.mode == "discover":
             # several entries for one key in ONE SD message, through the whole receive path: the last one counts
-            for seq in ((2, 1, 2), (1, 2, 1), (1, 0, 1), (INF, 1, INF)):
+            for seq in ((2, 1, 2), (1, 2, 1), (1, 0, 1), (INF, 1, INF), (0, 1), (0, INF)):
                 acts.append(("addseq", "K1", self.addrs[0], seq))
         if self.cfg.get("sequences"):
             # a refresh (ttl 2) or a stop (ttl 0) that shares its SD message with entries of other kinds in front
